@@ -72,7 +72,7 @@ def run(ctx):
         core = p[1:] if p.startswith("v") and not p.startswith("ver-") else p
         if core[:1].isupper() or core[:1].isdigit():
             pats += [core, "v" + core]
-    pats += ['MAJOR.0Y.PATCH', 'MAJOR.0G.0V', 'MINOR.0Y.0M', 'vMAJOR.0Y.INC0[-TAG]', 'MAJOR.MINOR.00J', 'vMAJOR.0W']   # zero-padded parts after the first component
+    pats += ['MAJOR.0Y.PATCH', 'MAJOR.0G.0V', 'MINOR.0Y.0M', 'vMAJOR.0Y.INC0[-TAG]', 'MAJOR.YYYY.00J', 'vMAJOR.YYYY.0W']   # zero-padded parts after the first component
     pats = list(dict.fromkeys(pats))
     # ---- design
     sel = rng.sample(pats, ctx.pick(40, 300))
